@@ -35,8 +35,8 @@ REQUIRED = {"rows_rederived": 20000, "programs": 60, "cases:tempered": 20, "case
 
 def jobs(tier, seed):
     n_jobs = 16 if tier == "quick" else 32
-    return [{"name": f"rec-{j}", "seed": seed, "j": j, "n_programs": 8 if tier == "quick" else 60,
-             "n_twins": 2 if tier == "quick" else 12, "n_pt": 1 if tier == "quick" else 4} for j in range(n_jobs)]
+    return [{"name": f"rec-{j}", "seed": seed, "j": j, "n_programs": 24 if tier == "quick" else 90,
+             "n_twins": 6 if tier == "quick" else 20, "n_pt": 2 if tier == "quick" else 6} for j in range(n_jobs)]
 
 
 def make_target(rng, d):
